@@ -772,7 +772,14 @@ mod os {
             }
             drop(exec_fail_pipe.1);
             let mut error_buf = [0u8; 4];
-            let read_cnt = exec_fail_pipe.0.read(&mut error_buf)?;
+            let read_cnt = loop {
+                // a signal handler interrupting the read says nothing
+                // about the child: read again
+                match exec_fail_pipe.0.read(&mut error_buf) {
+                    Err(ref e) if e.kind() == io::ErrorKind::Interrupted => continue,
+                    other => break other?,
+                }
+            };
             if read_cnt == 0 {
                 Ok(())
             } else if read_cnt == 4 {
